@@ -8,7 +8,7 @@ use crate::facts::{FactSet, TermFact, KIND_NAMES};
 use crate::gen::{gen_name, gen_records, GenCfg, NameMode};
 use crate::json::Json;
 use crate::model::Model;
-use crate::observe::{bump, guard, hid, Obs};
+use crate::observe::{bump, guard, Obs};
 use crate::rng::Rng;
 use crate::runner::{CaseOut, Monitor, Tier};
 use hpo::Ontology;
@@ -243,6 +243,90 @@ impl StateMonitor {
         }
     }
 
+    /// C01 on the sub_ontology construction path: the result's closure must be the closure of ITS
+    /// OWN direct parents, children the inverse, child_of/parent_of membership in that closure.
+    /// (Which terms and links a sub-ontology must contain is C14's business.)
+    fn sub_ontology_case(&self, rng: &mut Rng, tier: Tier, out: &mut CaseOut) {
+        let defaults = rng.chance(1, 2);
+        let cfg = GenCfg {
+            n_min: 4,
+            n_max: if rng.chance(1, 6) { tier.pick(60, 90) } else { 30 },
+            defaults,
+            max_paths: Some(tier.pick(200, 1500)),
+            ..GenCfg::default()
+        };
+        let facts = crate::gen::gen_facts(rng, &cfg).builder_view();
+        let src = match drive::via_builder(&facts, Some(rng), defaults) {
+            Ok(o) => o,
+            Err(e) => {
+                out.violate("C01", "construct_failed/sub_source", format!("{e}"));
+                return;
+            }
+        };
+        let m = Model::new(&facts, defaults);
+        let ids: Vec<u32> = m.ids.iter().copied().collect();
+        // a root with descendants and 1..5 leaves below it
+        let cands: Vec<u32> = ids.iter().copied().filter(|t| !m.desc[t].is_empty()).collect();
+        if cands.is_empty() {
+            out.bucket("sub_source_without_edges");
+            return;
+        }
+        let root = *rng.pick(&cands);
+        let below: Vec<u32> = m.desc[&root].iter().copied().collect();
+        let k = rng.urange(1, 5);
+        let leaves: Vec<u32> = (0..k).map(|_| *rng.pick(&below)).collect();
+        out.case = Json::obj()
+            .set("path", Json::s("sub_ontology"))
+            .set("root", Json::u(u64::from(root)))
+            .set("leaves", Json::arr_u32(&leaves))
+            .set("source_facts", facts.to_json());
+        out.sig = crate::rng::hash_u64s(&[facts.content_hash(), u64::from(root), crate::rng::hash_u64s(&leaves.iter().map(|x| u64::from(*x)).collect::<Vec<_>>())]);
+        bump(&mut out.events, "Ontology::sub_ontology");
+        let sub = guard(|| {
+            let r = src.hpo(root).expect("root");
+            let ls: Vec<hpo::HpoTerm> = leaves.iter().map(|l| src.hpo(*l).expect("leaf")).collect();
+            src.sub_ontology(r, ls).map_err(|e| e.to_string())
+        });
+        let sub = match sub {
+            Ok(Ok(o)) => o,
+            Ok(Err(e)) => {
+                out.violate("C01", "construct_failed/sub_ontology", format!("sub_ontology({root}, {leaves:?}) = Err({e}) for leaves below root"));
+                return;
+            }
+            Err(p) => {
+                out.violate("C01", "construct_panic/sub_ontology", format!("{} at {}", p.message, p.location));
+                return;
+            }
+        };
+        out.bucket("path/sub_ontology");
+        let obs = crate::observe::walk(&sub, &[], &mut out.events);
+        out.nontrivial = obs.terms.len() >= 3;
+        for p in &obs.panics {
+            if owns("C01", &format!("panic:{}", p.accessor)) {
+                out.violate("C01", &format!("panic:{}/sub_ontology", p.accessor), format!("{}({}) panicked: {}", p.accessor, p.id, p.info.message));
+            }
+        }
+        for (site, detail) in &obs.anomalies {
+            if owns("C01", site) {
+                out.violate("C01", &format!("{site}/sub_ontology"), detail.clone());
+            }
+        }
+        self.self_consistency_c01(&obs, out, "/sub_ontology");
+        // child_of / parent_of against the closure of the result's own direct parents
+        let mut own = FactSet::default();
+        for (id, t) in &obs.terms {
+            own.terms.push(TermFact { id: *id, name: t.name.clone(), obsolete: false, replaced_by: None });
+            for p in &t.parents {
+                if obs.terms.contains_key(p) {
+                    own.edges.push((*id, *p));
+                }
+            }
+        }
+        let om = Model::new(&own, false);
+        self.pairwise_c01(&sub, &om, out);
+        structural_buckets(&om, out);
+    }
+
     fn c02_extra(&self, m: &Model, view: &FactSet, out: &mut CaseOut) {
         // classification buckets from the quantifier
         for k in 0..3 {
@@ -431,7 +515,12 @@ impl Monitor for StateMonitor {
                 v.push(format!("rndc19:{i}"));
             }
         }
-        let n = tier.pick(2500, 150_000);
+        if self.prop == "C01" {
+            for i in 0..tier.pick(400, 20_000) {
+                v.push(format!("sub:{i}"));
+            }
+        }
+        let n = tier.pick(6000, 150_000);
         for i in 0..n {
             v.push(format!("rnd:{i}"));
         }
@@ -456,6 +545,7 @@ impl Monitor for StateMonitor {
                     "redundant_edge",
                     "child_id_below_parent_id",
                     "ordered_pairs_queried",
+                    "path/sub_ontology",
                 ] {
                     v.push(b.to_string());
                 }
@@ -504,6 +594,10 @@ impl Monitor for StateMonitor {
         let mut rng = Rng::for_case(seed, self.prop, label);
         if label.starts_with("noroot") {
             self.missing_root_case(label, &mut rng, &mut out);
+            return out;
+        }
+        if label.starts_with("sub:") {
+            self.sub_ontology_case(&mut rng, tier, &mut out);
             return out;
         }
         let sc = if label.starts_with("rndc19") {
